@@ -116,7 +116,7 @@ def first_lines(rng, tier):
         for lang in ("en", "tr"):
             if quick and lang == "tr" and code not in ("usd", "eur", "try", "dkk", "sek", "bgn", "gbp", "jpy", "chf"):
                 continue
-            amts = ["1234.5"] + ([] if quick else ["-10", "0.5"])
+            amts = ["1234.5"] + ([] if quick or lang == "tr" else [rng.choice(["-10", "0.5", "1234567.891"])])
             for a in amts:
                 cs.append(mk([], "%s %s" % (lit(a, ","), code), lang, "money", dsep=",", tsep=".", cur=code, by="code", v=a))
     # money by alias / symbol, all separator pairs, money flags
@@ -128,10 +128,9 @@ def first_lines(rng, tier):
     for (d, t) in seps:
         for rmc in ([None, (True, True), (False, False), (True, False)] if not quick else [None, (True, True)]):
             pre = sep_ops(d, t) + ([] if rmc is None else [{"op": "set_money_cfg", "rm": rmc[0], "round": rmc[1]}])
-            fs = forms if not quick else rng.sample(forms, 6)
+            fs = forms if not quick else rng.sample(forms, 6 if (d, t) in SEPARATORS[:4] else 2)
             for (f, code, a) in fs:
-                amt = rng.choice(AMOUNTS) if quick else None
-                for v in ([amt] if amt else AMOUNTS):
+                for v in ([rng.choice(AMOUNTS)] if quick else rng.sample(AMOUNTS, 2)):
                     cs.append(mk(pre, f % lit(v, d), rng.choice(["en", "tr"]), "money", dsep=d, tsep=t, cur=code, by="alias",
                                  alias=a, v=v, mcfg=rmc))
     # ---- durations
@@ -150,6 +149,10 @@ def first_lines(rng, tier):
         for text in ["1 %s - 3 %s" % (w, w), "100 %s" % w, "1000000 %s" % table["second"][-1], "400 %s + 5 %s" % (w, table["hour"][-1])]:
             cs.append(mk([], text, lang, "duration", parts=0, v=text))
         cs.append(mk([], "1 %s - 1 %s" % (w, w), lang, "duration", parts=0, v="zero", zero=1))
+        # the greedy printer can emit 12 months (a remainder of 360..364 days after the years)
+        for n in ([364, 729] if quick else [360, 361, 364, 729, 1094, 359, 365]):
+            cs.append(mk([], "%d %s" % (n, w), lang, "duration", parts=0, v="%d day" % n))
+        cs.append(mk([], "1094 %s 23 %s" % (w, table["hour"][-1]), lang, "duration", parts=0, v="1094 day 23 hour"))
     for (d, t) in seps[1:]:
         cs.append(mk(sep_ops(d, t), "1234567 seconds", "en", "duration", parts=0, dsep=d, tsep=t, v="1234567 seconds"))
     # ---- times
@@ -185,6 +188,10 @@ def first_lines(rng, tier):
     for tzset in ["EST", "GMT+3"]:
         for lang, text in (("en", "5 feb 2020"), ("en", "17 august"), ("tr", "5 şubat 2020"), ("tr", "17 ağustos")):
             cs.append(mk([{"op": "set_tz", "v": tzset}], text, lang, "date", settz=tzset, v=text, yr="?"))
+    # ---- unix timestamps (numbers of the Raw type: printed without grouping)
+    for text in ["5 feb 2020 to unix", "12:30 to unixtime", "5 feb 1970 unix", "1 jan 1970 to unix", "2 jan 1970 to unix"]:
+        cs.append(mk([], text, "en", "number", v=text, dsep=",", tsep=".", raw=1))
+    cs.append(mk(sep_ops(".", ""), "5 feb 2020 to unix", "en", "number", v="5 feb 2020 to unix", dsep=".", tsep="", raw=1))
     # ---- date-times
     for text in ["1600000000 to date", "0 to date", "1700000000 date", "1600000000 to EST", "5 feb 2020 at 12:30", "17 august at 9:05",
                  "5 feb 2020 at 12:30 to EST"]:
@@ -194,8 +201,9 @@ def first_lines(rng, tier):
     for (g, i, fmt, names) in UNITS:
         for nm in names:
             for lang in ("en", "tr"):
-                for (d, t) in (SEPARATORS[:4] if not quick else [rng.choice(SEPARATORS[:4])]):
-                    for v in (["1", "1234.5", "-3", "0.25"] if not quick else [rng.choice(["1", "1234.5", "-3", "0.25"])]):
+                for (d, t) in (rng.sample(SEPARATORS[:4], 2) if not quick else [rng.choice(SEPARATORS[:4])]):
+                    for v in (rng.sample(["1", "1234.5", "-3", "0.25", "1234567.891"], 2) if not quick else
+                              [rng.choice(["1", "1234.5", "-3", "0.25"])]):
                         cs.append(mk(sep_ops(d, t), "%s %s" % (lit(v, d), nm), lang, "unit", dsep=d, tsep=t, unit=[g, i], name=nm, v=v))
         for (d, t) in SEPARATORS[4:]:
             if not quick or rng.random() < 0.2:
@@ -299,9 +307,132 @@ def spec_check(c, rec, header):
     return None
 
 
-def known_class(c, rec, verdict, known):
+# ---------------------------------------------------------------- known classes (known_findings.json, property C15)
+# Every predicate is a function of the FIRST observation of the record (the value printed and its type), the case meta
+# (language, separators) and config.json data; a failure outside these predicates stays a VIOLATION.
+import unicodedata
+
+YEAR_S, MONTH_S = 365 * 86400, 30 * 86400
+
+
+def reader_name(cur):
+    """the currency name the money regexes of config.json parse.money capture from what money_print writes for `cur`:
+    symbol on the left: `\\p{Sc}` directly in front of the amount (regex 0), nothing else is looked for in front of
+    an amount; symbol on the right: `[ ]*[a-zA-Z]{2,}` (regex 1) or `[ ]*\\p{Sc}` (regex 2) behind it"""
+    c = CUR[cur]
+    sym = c["symbol"]
+    if c["symbolOnLeft"]:
+        if not c["spaceBetweenAmountAndSymbol"] and sym and unicodedata.category(sym[-1]) == "Sc":
+            return sym[-1]
+        return None
+    m = re.match(r"[a-zA-Z]{2,}", sym)
+    if m:
+        return m.group(0)
+    if sym and unicodedata.category(sym[0]) == "Sc":
+        return sym[0]
     return None
 
 
+def reads_as(cur):
+    """the currency read_currency (tokinizer/tools.rs:33-38: alias table first, then the code table) gives for the
+    printed symbol of `cur`; None when it is no reader name"""
+    n = reader_name(cur)
+    if n is None:
+        return None
+    n = n.lower()
+    return ALIAS.get(n) or (n if n in CUR else None)
+
+
+REREADABLE = sorted(c for c in CUR if reads_as(c) == c)          # dkk eur mvr tjs try usd
+
+
+def hex_collides(text):
+    """C13-K1 mechanism: a digit followed by letters that spell a currency code or alias, inside a hex literal"""
+    names = set(CUR) | {k.lower() for k in ALIAS}
+    return any(m.group(1).lower() in names for m in re.finditer(r"[0-9]([a-zA-Z]{2,})", text))
+
+
+def first_item(rec):
+    t = two_obs(rec)
+    if t is None or "panic" in t[0]:
+        return None
+    lines = t[0].get("lines")
+    if not lines or len(lines) != 1 or lines[0] is None or "out" not in lines[0]:
+        return None
+    k, v = line_value(lines[0])
+    return v if k == "item" else None
+
+
+def second_out(rec):
+    t = two_obs(rec)
+    if t is None or "panic" in t[1]:
+        return None
+    lines = t[1].get("lines")
+    if not lines or len(lines) != 1 or lines[0] is None:
+        return None
+    return lines[0].get("out")
+
+
+def class_of(c, rec):
+    m = c["meta"]
+    o = first_out(rec)
+    it = first_item(rec)
+    if o is None or it is None:
+        return None
+    ty = it["t"]
+    dsep, tsep = m.get("dsep", ","), m.get("tsep", ".")
+    numeric = ty in ("Number", "Percent", "Money", "DynamicType") and it.get("nt", "Decimal") == "Decimal"
+    # a zero duration prints the empty string
+    if ty == "Duration" and it["secs"] == 0 and o == "":
+        return "C15-zero-duration-prints-nothing"
+    # a configured separator the literal regexes ([0-9.,]) do not admit occurs in the printed number
+    if numeric and any(sp and sp not in LEXABLE and sp in o for sp in (dsep, tsep)):
+        return "C15-separator-not-lexed"
+    # '-' in front of digits that are all zero: the value behind the re-entered text is -0.0, which prints unsigned
+    if numeric and "-" in o and re.search(r"[0-9]", o) and not re.search(r"[1-9]", o) \
+            and second_out(rec) == o.replace("-", "", 1):
+        return "C15-negative-zero"
+    if ty == "Money":
+        cur = it["cur"].lower()
+        r = reads_as(cur) if cur in CUR else cur
+        if r is None:
+            return "C15-money-symbol-not-a-reader-name"
+        if r != cur:
+            return "C15-money-symbol-names-other-currency"
+    if ty == "Duration" and abs(it["secs"]) % YEAR_S >= 12 * MONTH_S:
+        return "C15-twelve-months"
+    if ty == "Time" and m["lang"] == "tr":
+        return "C15-tr-time-zone-not-joined"
+    if ty == "DateTime":
+        return "C15-datetime-print-unreadable"
+    if ty == "Number" and it.get("nt") == "Raw" and tsep != "" and len(re.sub(r"[^0-9]", "", o)) >= 4:
+        return "C15-raw-timestamp-regrouped"
+    if ty == "Number" and it.get("nt") == "Hexadecimal" and hex_collides(o):
+        return "C15-hex-currency"
+    return None
+
+
+def known_class(c, rec, verdict, known):
+    cls = class_of(c, rec)
+    if cls is None:
+        return None
+    return cls if any(f["class"] == cls for f in known) else None
+
+
 def witness_fails(f, wc, rec, header):
-    return False
+    """the witness is a history whose LAST op enters a printed form (the ops before it print it): it fails when the
+    last evaluation does not print its own text again"""
+    if rec is None or rec.get("hang") or rec.get("crash"):
+        return True
+    text = wc["ops"][-1]["text"]
+    obs = rec["obs"][-1]
+    if first_out(rec) != text:
+        return False                      # the earlier ops no longer print this text: the entry is stale, not failing
+    if "panic" in obs:
+        return True
+    lines = obs.get("lines")
+    if text == "":
+        return True                       # an empty printed form is no line
+    if not lines or len(lines) != 1 or lines[0] is None or "err" in lines[0]:
+        return True
+    return lines[0]["out"] != text
